@@ -68,7 +68,7 @@ impl Part for WirePart {
         "populations of 1..6 clients in generated states at signal time {idle (fresh or used), inside a transaction, statement held at the backend, extended batch without Sync, mid-authentication, session-mode owner, admin}, trigger SIGINT / admin SHUTDOWN / SIGTERM, shutdown_timeout 400 ms or 10 s, optionally one transaction that never ends; after the signal has been observed the clients act in a generated order and new admin / non-admin logins are attempted. Oracle: idle transaction-mode clients get the administrator-command error and a close; open work (transaction, held statement, unsynced batch) completes with the client's own rows and the client is disconnected afterwards; a client that was mid-authentication is refused or disconnected right after start-up; new non-admin logins are refused, admin logins accepted; the process exits with status 0 within 2 s of the last client leaving (or shutdown_timeout + 2 s when one never leaves); SIGTERM exits within 2 s regardless. Non-trivial = at least one client with open work at signal time".into()
     }
     fn cases(&self, tier: Tier) -> u64 {
-        tier.pick(150, 4_000)
+        tier.pick(600, 8_000)
     }
     fn strategy(&self, _tier: Tier) -> BoxedStrategy<Case> {
         let state = prop_oneof![
